@@ -50,6 +50,8 @@ def run(case, agg):
             from .. import impl
             impl.prefill(sto)
             impl.prefill(dfu)
+        elif case["i"] % 11 == 0 and size:
+            dfu = inp            # in-place conversion: the partition image replaces the envelope file
         try:
             if seed_slice(case["i"], 5):
                 cmd_image.main(image="update", input_file=inp, storage_output_file=sto, dfu_partition_output_file=dfu,
